@@ -895,12 +895,55 @@ theorem topkey_ne (f : String) : "pyspark" ≠ "pyspark.sql." ++ f ∧ "pyspark.
 
 
 
+/-- the conn/config statements touch nothing but ACTIVATE_CONFIG and the caller's dicts -/
+theorem cfgStep_frame (conn : Option Nat) (acc : State × Loc) (s : CfgStmt) :
+    (cfgStep conn acc s).1.mods = acc.1.mods ∧ (cfgStep conn acc s).1.pkgs = acc.1.pkgs ∧
+    (cfgStep conn acc s).1.cur = acc.1.cur ∧ (cfgStep conn acc s).1.ctx = acc.1.ctx ∧
+    (cfgStep conn acc s).1.inst = acc.1.inst ∧ (cfgStep conn acc s).1.builders = acc.1.builders ∧
+    (cfgStep conn acc s).1.mockSql = acc.1.mockSql ∧ (cfgStep conn acc s).1.mockTesting = acc.1.mockTesting := by
+  cases s with
+  | rebind copy => unfold cfgStep; simp only; split <;> (try split) <;> exact ⟨rfl, rfl, rfl, rfl, rfl, rfl, rfl, rfl⟩
+  | connToGlobal k => unfold cfgStep; cases conn <;> exact ⟨rfl, rfl, rfl, rfl, rfl, rfl, rfl, rfl⟩
+  | connToLocal k => unfold cfgStep; simp only; split <;> exact ⟨rfl, rfl, rfl, rfl, rfl, rfl, rfl, rfl⟩
+  | itemsToGlobal => exact ⟨rfl, rfl, rfl, rfl, rfl, rfl, rfl, rfl⟩
+
+theorem storeCfg_frame (conn : Option Nat) (ss : List CfgStmt) : ∀ acc : State × Loc,
+    (storeCfg conn ss acc).1.mods = acc.1.mods ∧ (storeCfg conn ss acc).1.pkgs = acc.1.pkgs ∧
+    (storeCfg conn ss acc).1.cur = acc.1.cur ∧ (storeCfg conn ss acc).1.ctx = acc.1.ctx ∧
+    (storeCfg conn ss acc).1.inst = acc.1.inst ∧ (storeCfg conn ss acc).1.builders = acc.1.builders ∧
+    (storeCfg conn ss acc).1.mockSql = acc.1.mockSql ∧ (storeCfg conn ss acc).1.mockTesting = acc.1.mockTesting := by
+  induction ss with
+  | nil => intro acc; exact ⟨rfl, rfl, rfl, rfl, rfl, rfl, rfl, rfl⟩
+  | cons s rest ih =>
+    intro acc
+    obtain ⟨a1, a2, a3, a4, a5, a6, a7, a8⟩ := ih (cfgStep conn acc s)
+    obtain ⟨b1, b2, b3, b4, b5, b6, b7, b8⟩ := cfgStep_frame conn acc s
+    simp only [storeCfg]
+    exact ⟨a1.trans b1, a2.trans b2, a3.trans b3, a4.trans b4, a5.trans b5, a6.trans b6, a7.trans b7, a8.trans b8⟩
+
+theorem ensureCaller_frame (st : State) (d : String) :
+    (ensureCaller st d).mods = st.mods ∧ (ensureCaller st d).pkgs = st.pkgs ∧ (ensureCaller st d).cur = st.cur ∧
+    (ensureCaller st d).ctx = st.ctx ∧ (ensureCaller st d).inst = st.inst ∧ (ensureCaller st d).builders = st.builders ∧
+    (ensureCaller st d).mockSql = st.mockSql ∧ (ensureCaller st d).mockTesting = st.mockTesting ∧
+    (ensureCaller st d).config = st.config := by
+  unfold ensureCaller; split <;> exact ⟨rfl, rfl, rfl, rfl, rfl, rfl, rfl, rfl, rfl⟩
+
 theorem activatePre_spec (c : Option Nat) (d : Option String) (st : State) :
     (activatePre c d st).mods = aset (aset st.mods "pyspark" .mock) "pyspark.testing" .testing ∧
     (activatePre c d st).pkgs = st.pkgs ∧ (activatePre c d st).cur = st.cur ∧ (activatePre c d st).ctx = st.ctx := by
   unfold activatePre
-  simp only [setsTop, setsTesting, if_true, connKey, storesConfig, setCfg]
-  cases c <;> cases d <;> simp
+  simp only [setsTop, setsTesting, if_true]
+  cases d with
+  | none =>
+    obtain ⟨h1, h2, h3, h4, _⟩ := storeCfg_frame c cfgStmts
+      ({ st with mods := aset (aset st.mods "pyspark" .mock) "pyspark.testing" .testing, mockSql := none, mockTesting := mockTesting }, Loc.none)
+    exact ⟨h1, h2, h3, h4⟩
+  | some d =>
+    obtain ⟨h1, h2, h3, h4, _⟩ := storeCfg_frame c cfgStmts
+      (ensureCaller { st with mods := aset (aset st.mods "pyspark" .mock) "pyspark.testing" .testing, mockSql := none, mockTesting := mockTesting } d, Loc.alias d)
+    obtain ⟨e1, e2, e3, e4, _⟩ := ensureCaller_frame
+      { st with mods := aset (aset st.mods "pyspark" .mock) "pyspark.testing" .testing, mockSql := none, mockTesting := mockTesting } d
+    exact ⟨h1.trans e1, h2.trans e2, h3.trans e3, h4.trans e4⟩
 
 theorem mem_docSqlKeys_not_top : "pyspark" ∉ docSqlKeys ∧ "pyspark.testing" ∉ docSqlKeys := by decide
 
